@@ -140,6 +140,10 @@ pub struct StationCfg {
     pub apps: Vec<AppCfg>,
     /// With exactly one application use `poll()` instead of `poll_multi()`.
     pub single_poll_api: bool,
+    /// When the station object comes back online after `set_offline()`, the application polls it
+    /// with only the first n of its applications from then on (the list may change while offline).
+    #[serde(default)]
+    pub rejoin_keep_apps: Option<u8>,
     pub tx_done: TxDoneCfg,
     pub rx_chunk_us: u64,
     /// Per-mille probability that a poll is immediately repeated at the same instant.
@@ -346,6 +350,9 @@ pub enum FaultKind {
     Subst { byte: u16, val: u8 },
     Truncate { keep: u16 },
     Dup { node: usize },
+    /// The telegram reaches nobody and a lone 0xE5 appears on the bus shortly after it (what is
+    /// left of a garbled frame): a short confirmation has no address and no checksum.
+    LostWithStraySc,
     /// Adversarial transmission starting `after_chars` characters into the matched telegram.
     Collide { after_chars: u16, bytes: Vec<u8> },
     /// Bytes on the (hopefully idle) bus at an absolute time.
